@@ -57,6 +57,14 @@ func newFixture(seed int64, kind string) (*fixture, error) {
 		return nil, err
 	}
 	f := &fixture{kind: kind, seed: seed, blocks: nb, w: w, h: h, n: h.N}
+	if nb > 0 {
+		// make user 1 a pool with several delegators and the god identity a pool as well (proposer-side code paths that
+		// depend on the pool size); the delegations take effect at the next delegation switch (every 3 blocks here)
+		for _, d := range [][2]int{{2, 1}, {3, 1}, {5, 1}, {9, 1}, {10, 0}, {11, 0}} {
+			to := w.Addrs[d[1]]
+			h.S.Send(h.N, d[0], &types.Transaction{Type: types.DelegateTx, To: &to})
+		}
+	}
 	for b := 1; b <= nb; b++ {
 		blk, err := h.Step(b)
 		if err != nil {
@@ -82,6 +90,18 @@ func (f *fixture) attach() {
 	f.votes = pengings.NewVotes(n.App, n.Bus, offline, up)
 	f.votes.Initialize(n.Chain.Head)
 	f.gossip = protocol.VerifC12NewGossip(config.P2P{}, n.Chain, f.proposals, f.votes, n.Pool, f.flipper, n.Bus, f.keys)
+}
+
+// pools: key indices whose identity is currently a pool of size > 1
+func (f *fixture) pools() []int {
+	var r []int
+	vc := f.n.App.ValidatorsCache
+	for i, a := range f.w.Addrs {
+		if vc.IsPool(a) && vc.PoolSize(a) > 1 {
+			r = append(r, i)
+		}
+	}
+	return r
 }
 
 func (f *fixture) close() {
